@@ -2,6 +2,10 @@
 """markdown table of the seeded changes and what the checks did with them (from seeded/*/meta.json)"""
 import glob, json, os, re
 rows = []
+try:
+    FIRST = json.load(open(os.path.join(os.path.dirname(__file__), '..', 'seeded', 'ROUND2_FIRST.json')))['first_sight']
+except Exception:
+    FIRST = {}
 for f in sorted(glob.glob(os.path.join(os.path.dirname(__file__), '..', 'seeded', '*', 'meta.json'))):
     m = json.load(open(f))
     r = m.get('result', {})
@@ -15,6 +19,8 @@ for f in sorted(glob.glob(os.path.join(os.path.dirname(__file__), '..', 'seeded'
         res = 'caught: ' + (v[0].split(' :: ')[-1][:70] if v else 'VIOLATION')
     else:
         res = '**missed**' + (f" (exit {r.get('check_exit')})" if r.get('check_exit') not in (0, None) else '')
+    if m['id'] in FIRST and r.get('detected') and not FIRST[m['id']]:
+        res += ' (only after a harness extension)'
     rows.append((m['id'], what.replace('|', '/'), res.replace('|', '/'), r.get('wall_s')))
 print('| seed | change (abridged) | quick check | wall s |\n|---|---|---|---|')
 for r in rows:
